@@ -14,9 +14,10 @@ Proof. exact relpath_resolves. Qed.
 Print Assumptions C09_relpath_resolves.
 
 (* every kind of URL FORD writes in relative mode (per-page project_url prefix, relurl filter,
-   docstring links, static-page links, graph nodes, search index), read from the page it is
-   written on, resolves to <output dir>/<target>: at every page depth for the first, second, fourth
-   and sixth kind; for docstring links and graph nodes when the page is at depth 1 *)
+   docstring links, static-page links, graph nodes in SVG, graph nodes in graphs drawn as HTML
+   tables, search index), read from the page it is written on, resolves to <output dir>/<target>:
+   at every page depth for the per-page prefix, relurl, static-page and search URLs; for docstring
+   links and both kinds of graph node when the page is at depth 1 *)
 Theorem C09_site_resolves : forall out st,
   clean out = true -> clean_site st = true -> site_depth_ok st = true ->
   resolve (out ++ parent (site_view st)) (site_rel out st) = out ++ site_target st.
